@@ -39,6 +39,15 @@ theorem PartialJoin_begin_apply_eq (fuel : Nat) (p : PJoin) (t : Rel) (pref : Op
         simp [JoinOp.resolved, seteq_self]
       simp [hr, PartialJoin_columns_required_eq]
 
+/-- `Join.applied_common_columns`, as regenerated, is the model's `JoinOp.appliedCommonColumns`. -/
+theorem Join_applied_common_columns_eq (j : JoinOp) (lcols rcols : Cols) :
+    Gen.Join_applied_common_columns j lcols rcols = j.appliedCommonColumns lcols rcols := by
+  unfold Gen.Join_applied_common_columns JoinOp.appliedCommonColumns
+  by_cases hres : (!j.resolved) = true
+  · simp only [hres, if_true]
+    cases hm : j.maxCols <;> simp only [] <;> (split <;> simp_all)
+  · simp [hres]
+
 /-- `Join._begin_apply(lhs, rhs)`, as regenerated, is the model's `joinBeginApply`. -/
 theorem Join_begin_apply_eq (j : JoinOp) (l r : Rel) : Gen.Join_begin_apply j l r = joinBeginApply j l r := by
   unfold Gen.Join_begin_apply joinBeginApply
